@@ -484,6 +484,15 @@ GROUPS["bvf_io"] = dict(name="bvf_io", prelude=lambda ctx: BVF_PRELUDE + ["bytes
     items=lambda ctx: BVF_BASE + stub(BVF_CORE) + stub(["bvf.to_vec", "bvf.from_bytes_b" if ctx["I"] == "u8" else "bvf.from_bytes_w"]) + verify(["bvf.read", "bvf.write"]))
 GROUPS["bvd_io"] = G("bvd_io", BVD_PRELUDE + ["bytes.rs", "io.rs", "io_bvd.rs"], BVD_BASE + stub(BVD_CORE) + stub(["bvd.to_vec", "bvd.from_bytes"]) + verify(["bvd.read", "bvd.write"]))
 GROUPS["bvd_io"]["features"] = "#![feature(allocator_api)]"
+def digits_prelude(word):
+    b = INT_BITS[word]
+    return [("digits_from.rs", {"W": "1", "WP": "2", "S": "_b1", "DPW": str(b)}), ("digits_from.rs", {"W": "4", "WP": "16", "S": "_b4", "DPW": str(b // 4)}), "parse.rs"]
+GROUPS["bvf_parse"] = dict(name="bvf_parse", features="use vstd::string::*;", prelude=lambda ctx: BVF_PRELUDE + digits_prelude(ctx["I"]),
+    items=lambda ctx: BVF_BASE + [("stub", "cast.from", {"A": "{I}", "B": "u8"}), ("stub", "cast.to", {"A": "{I}", "B": "u8"})] + stub(BVF_CORE) + verify(["bvf.from_binary", "bvf.from_hex"]))
+GROUPS["bvd_parse"] = G("bvd_parse", BVD_PRELUDE + digits_prelude("u64") + ["parse_bvd.rs"], BVD_BASE + stub(BVD_CORE) + verify(["bvd.from_binary", "bvd.from_hex"]))
+GROUPS["bvd_parse"]["features"] = "#![feature(allocator_api)]\nuse vstd::string::*;"
+GROUPS["bv_parse"] = G("bv_parse", BV_PRELUDE + ["bv_words.rs"] + digits_prelude("u64"), BV_BASE + stub(["bvf.from_binary", "bvf.from_hex", "bvd.from_binary", "bvd.from_hex"]) + verify(["bv.from_binary", "bv.from_hex"]))
+GROUPS["bv_parse"]["features"] = "#![feature(allocator_api)]\nuse vstd::string::*;"
 GROUPS["bvd_from_bytes"] = G("bvd_from_bytes", BVD_PRELUDE + ["bytes.rs", "bytes_from.rs"], BVD_BASE + stub(BVD_CORE) + verify(["bvd.from_bytes"]))
 GROUPS["bvd_from_bytes"]["features"] = "#![feature(allocator_api)]"
 GROUPS["bvd_bytes"] = G("bvd_bytes", BVD_PRELUDE + ["bytes.rs"], BVD_BASE + stub(BVD_CORE) + verify(["bvd.to_vec"]))
@@ -867,6 +876,10 @@ for _p in ("C01", "C04", "C11", "C12", "C13"):
     PROPS[_p]["quick"] += cast_jobs(WQ)
     PROPS[_p]["thorough"] += cast_jobs(W4)
 
+def parse_jobs(ws):
+    return [("bvf_parse", {"I": i}) for i in ws] + [("bvd_parse", U64), ("bv_parse", U64)]
+PROPS["C15"] = {"quick": parse_jobs(WQ), "thorough": parse_jobs(W4)}
+
 MANIFEST_TEXT = {}
 TRUST_NOTE = ("Trusted base (also listed verbatim in the evidence): assumed contracts of std functions (T1: overflowing_add/sub, "
               "Result::map_or, integer TryFrom, ...), machine model 64-bit little-endian (T5), storage < usize::MAX/2 bits (A-size), "
@@ -983,11 +996,16 @@ dyn_only("C14", "Display/Binary/Octal/LowerHex/UpperHex under 21 format specific
          "Display runs div_rem in a loop with char::from_digit, and the observable result goes through core::fmt::Formatter::pad_integral, for which vstd has neither a model nor a hook; a contract would have to ASSUME the "
          "whole formatting back end (T4) and the String API. This check is therefore NOT a proof and not a bounded-exhaustive stand-in either (CBMC cannot take core::fmt at useful bounds): it is the executable contract run on "
          "seeded random inputs, kept because it finds real defects (the seeded changes C14-a/b) and labelled exploration. What IS proved and feeds formatting: div_rem (C02), significant_bits (C16), the conversions to integers (C11).")
-dyn_only("C15", "from_binary/from_hex over random strings from an alphabet with valid digits, invalid ASCII and a non-ASCII character (accept set, length, first bad index, capacity error) and parse(format(v)) == v; Bv on both sides of the inline limit.",
-         "CONTRACT-BASED VERIFICATION DOES NOT REACH THIS PROPERTY with the installed tools: both parsers are single loops over `string.as_ref().chars().enumerate()` (UTF-8 decoding iterator + adapter), which Verus's front end rejects, "
-         "and `char::to_digit`. A bounded stand-in was tried and is NOT available either: Kani/CBMC on from_binary/from_hex of Bvf<u8,2> over every string of up to 2 characters from a 6-symbol alphabet (stack buffer, no String) did not finish "
-         "in 13 minutes (UTF-8 decoding + enumerate under CBMC). What runs is the executable contract on seeded random strings (up to 20 characters; valid digits, invalid ASCII, a two-byte character; all implementations; "
-         "the small-string harness parsek__f82 is run natively on random draws too): exploration, never counted as proved.")
+MANIFEST_TEXT["C15"] = dict(
+    text=("Proof: the real bodies of from_binary and from_hex of Bvf<I,N> (I = u8..u64, symbolic N), Bvd and Bv, extracted from /repo on every run, are verified by Verus over the string as a sequence of chars (vstd's string view): "
+          "the accept set is exactly the strings of '0'/'1' (resp. ASCII hex digits of either case, `char::to_digit(16)` assumed: T1), the empty string included; on success the length is |s| (resp. 4|s|), the result is well formed and "
+          "bit b is the character at index |s|-1-b (resp. bit b%4 of the digit at index |s|-1-b/4): most significant digit first; a string that fits and contains an offending character (non-ASCII included) yields InvalidFormat(i) with i the "
+          "index of the FIRST such character; an all-valid string longer than a fixed capacity yields NotEnoughCapacity (a too-long string always yields Err); Bv: same contract without capacity limit, whatever implementation the byte length selects. "
+          "The per-character accumulate-and-shift loops (into the word holding that digit position; Bvd with its offset arithmetic) are proved against a digit-packing theory parametric in the digit width (spec/prelude/digits_from.rs). "
+          "NOT proved (second engine only): the last clause of the property, parse(format(v)) == v, because formatting is outside the verifier (C14)." + DYN_NOTE),
+    note=("Rewrites specific to these units (logged per run): R26c `for (i, c) in string.chars().enumerate()` -> index loop over `0..string.unicode_len()` with `let c = string.get_char(i);` (std's meaning of chars().enumerate(): the i-th char, T3; "
+          "vstd's exec string functions), R31 `string.chars().count()` -> `string.unicode_len()`, `string.as_ref().len()` -> `verif_str_len(string)` (T1: UTF-8 byte length >= number of chars, equal for ASCII), R27 `string.as_ref()` -> `string` "
+          "at the instantiation S = &str. Not under contract: other instantiations of S (String), u128/usize storage words. A-size: |s| (resp. 4|s|) + 64 <= usize::MAX/2 for Bvd/Bv. " + TRUST_NOTE))
 MANIFEST_TEXT["C17"] = dict(
     text=("Proof: the real bodies of BitIterator::{new, next, size_hint, count, last, nth, next_back, nth_back} (iter.rs), instantiated for Bvf<I,N>, Bvd and Bv, are verified against an abstract view "
           "`remaining()` = the bits range.start..range.end of the vector front to back, under the invariant start <= end <= len: next/next_back return and remove the first/last remaining bit, nth(n)/nth_back(n) return "
